@@ -147,6 +147,7 @@ func (i *uint64InternalNode) deleteKey(minSize int, key uint64) bool {
 		defer leftSibling.unlock()
 		if leftCount = leftSibling.count(); leftCount > minSize {
 			child.adoptFromLeft(leftSibling)
+			i.runts[index] = child.smallest()
 			return false
 		}
 	}
